@@ -37,6 +37,7 @@ type Stats struct {
 	MaxOutRatio    float64                `json:"max_outlen_per_budget"`
 	Unordered      int64                  `json:"unordered_map_visits"`
 	TranspChecked  int64                  `json:"plain_vs_instrumented_checked"`
+	CLIChecked     int64                  `json:"cli_front_end_checked"`
 	Replayed       int64                  `json:"selfcheck_replayed"`
 	DigestMismatch int64                  `json:"selfcheck_digest_mismatches"`
 	KnownSeen      map[string]int64       `json:"known_findings_seen,omitempty"`
@@ -76,6 +77,7 @@ func (s *Stats) Merge(o *Stats) {
 	s.InnerAssign += o.InnerAssign
 	s.Unordered += o.Unordered
 	s.TranspChecked += o.TranspChecked
+	s.CLIChecked += o.CLIChecked
 	s.Replayed += o.Replayed
 	s.DigestMismatch += o.DigestMismatch
 	if o.MaxTicksRatio > s.MaxTicksRatio {
